@@ -148,6 +148,8 @@ def elements_for_file(f, tier):
     # configurations outside the hashed pool: prerequisites disabled; indexed random configurations
     out.append({"file": f, "cfg": "prereq_disabled"})
     h = harness.stable_hash("rc", f)
+    out.append({"file": f, "cfg": "mlc_yes"})
+    out.append({"file": f, "cfg": "mlc_yes", "variant": [["squeeze", (h // 7) % K_VARIANTS]]})
     out.append({"file": f, "cfg": "spaces_bounds"})
     out.append({"file": f, "cfg": "spaces_bounds", "variant": [["squeeze", h % K_VARIANTS]]})
     out.append({"file": f, "cfg": "rc%d" % (h % N_RC)})
